@@ -67,7 +67,11 @@ def evalE (ns : NS) : Expr → Option Ty
   | .name ps =>
       (match resolve ns ps with
        | some (.cls c) => some (.cls c)
-       | some (.typing n) => if n == "Any" then some .any else if n == "Callable" then some .callable else none
+       | some (.typing n) =>
+           if n == "Any" then some .any else if n == "Callable" then some .callable
+           -- a bare generic: every parameter is Any
+           else if n == "List" then some (.list .any) else if n == "Set" then some (.set .any)
+           else if n == "Dict" then some (.dict .any .any) else if n == "Tuple" then some (.tupleOf .any) else none
        | _ => none)
   | .app h as =>
       let vs := evalL ns as
